@@ -342,6 +342,10 @@ E = {
  "E-C10-1": "uintwide_t.h: eval_subtract_n loop body (hoisted minuend, store before the borrow update, ?: -> if/else on the inverted test); preincrement / predecrement do-while -> for with break",
  "E-C10-2": "uintwide_t.h: widening converting constructor through `(!neg) ? v : -v` and one copy/fill/negate; signed compare as `my_is_neg != other_is_neg` with a conditional result; right_shift_fill_value as if/return",
  "E-C20-1": "math.h: the requires-dispatched overload pairs of exp2m1_0to1 and fractional folded into one template each with if constexpr",
+ "E-C04-4": "elastic_integer/scale.h: both shift specialisations through aliases and named locals (scaled_rep, unit, divisor); power_value.h: duplicated decltype -> unit_type alias, float square() helper inlined as `root * root`, its dead copy removed",
+ "E-C12-4": "wrapper/shift_operator.h: the rep-level shift of wrapper<<builtin and wrapper<<wrapper extracted into one shift_rep<> helper; builtin<<wrapper through a named const count",
+ "E-C20-3": "math.h: rounding_conversion through result_rep and a named `doubled`; make_unsigned_t; safe_multiply's widening overload through product_digits / wide_a / wide_b",
+ "E-C06-4": "overflow/custom_operator.h: shift ?: chain -> early-return ifs with a hoisted common_tag alias, postfix copy renamed with a hoisted assign_operator; builtin_overflow.h: overflow_polarity add / subtract ?: -> if/return",
  "E-C20-2": "numbers.h: pi() with a hoisted n_plus_2 and n for n + 0L; constant_with_fallback ?: -> early-return if with the negated test, locals regrouped",
  "E-C10-3": "wide_tag / wide_integer glue: wide_tag_rep as a constexpr function returning type_identity (if constexpr), named rep_result before the cast, to_rep operands bound to const references, `|` -> `||`",
  "E-C01-4": "num_traits/scale.h default_scale: two requires-specialisations -> one template with if constexpr; binary_operator.h alignment constants without std::min; convert_operator.h hoisted from_value result",
